@@ -234,8 +234,8 @@ def gen_program(rng, form=None):
     nleaf = rng.randint(2, 4)
     behs = []
     for i in range(nleaf):
-        g = rng.choice([["T"], ["T"], ["GE", rng.randint(1, 3)], ["LT", rng.randint(1, 3)], ["EQ", rng.randint(0, 2)],
-                        ["NE", rng.randint(0, 2)], ["F"]])
+        g = rng.choice([["T"], ["T"], ["T"], ["GE", rng.randint(1, 3)], ["GE", rng.randint(1, 2)], ["LT", rng.randint(1, 3)],
+                        ["EQ", rng.randint(0, 2)], ["NE", rng.randint(0, 2)], ["NE", 0], ["F"]])
         body = []
         for _ in range(rng.randint(1, 2)):
             r = rng.random()
@@ -258,15 +258,15 @@ def gen_program(rng, form=None):
 
     def block(pool, depth):
         body = []
-        for _ in range(rng.randint(1, 3)):
+        for _ in range(rng.randint(1, 3) if depth else rng.randint(2, 4)):
             r = rng.random()
             if r < 0.35:
                 o, wd = options(pool)
                 body.append(["choose", o, wd])
-            elif r < 0.6:
-                o, wd = options(pool)
+            elif r < 0.65:
+                o, wd = options(pool, 2 if rng.random() < 0.5 else 3)
                 body.append(["shuffle", o, wd])
-            elif r < 0.7:
+            elif r < 0.72:
                 tl = [b for b in pool if behs[b]["pre"] == ["T"]]
                 if tl:
                     body.append(["do", rng.choice(tl)])
